@@ -84,7 +84,8 @@ def _random_scenario(kind: str, variant: str, rng: random.Random, length: int) -
             acts.append({"a": "cost"} if cs != "D" else {"a": "getcost", "n": rng.choice(["a", "b"])})
         elif u < 0.57:
             cs = rng.choice([c for c in ("A", "B", "D") if c != cs])
-            acts.append({"a": "setcs", "c": cs})
+            how = rng.choice(["s", "f", "f", "i"])
+            acts.append({"a": "setcs", "c": cs, "how": how if not (how == "i" and cs == "D") else "f"})
         elif u < 0.70:
             acts.append({"a": "forward"})
         elif u < 0.77:
@@ -135,6 +136,14 @@ def _corruption_sanity(traces: List[Dict[str, Any]], strict: bool = True) -> Non
     for e in t["ev"][k:]:
         e["obs"]["copy_ok"] = False
     muts.append(("C18.usable", t))
+    # a cost read whose gradient differs from the gradient twin's
+    gb = next(((t, i) for t in traces for i, e in enumerate(t["ev"]) if e["tw"]["has"]), None)
+    if gb is not None:
+        t = copy.deepcopy(gb[0]); t["ev"][gb[1]]["ret"]["g"] += 1000; muts.append(("C18.gradlink", t))
+        t = copy.deepcopy(gb[0]); t["ev"][gb[1]]["ret"]["rg"] = not t["ev"][gb[1]]["ret"]["rg"]; muts.append(("C18.gradlink", t))
+    elif strict:
+        raise MachineryError("C18: no trace with a cost read compared with the gradient twin")
+    t = copy.deepcopy(base); bump(t, k, "glink"); muts.append(("C18.gradlink", t))
     verdicts, _ = tlc.validate_traces("ObserversTrace", "ObserversTrace", [m for _, m in muts], workers=2)
     for (want, _), v in zip(muts, verdicts):
         if not v.startswith(want):
@@ -154,7 +163,7 @@ def run(tier: str, seed: int, replay=None) -> int:
               "that cover EVERY edge of the two state graphs (modes half, options half) TLC computes to closure for ObserversMC "
               "per kind, executed on real models (thorough: a complete edge cover per variant x full_cost in the modes half and per "
               "variant in the options half; quick: one complete cover per kind and half, variant and full_cost alternating over its walks); plus seeded random sequences mixing all calls on further "
-              "variants.  Every scenario is executed twice (with and without its observer calls).  Non-trivial = the sequence "
+              "variants.  Every scenario is executed on three objects (full; without observer calls; without observer calls except the cost reads).  Non-trivial = the sequence "
               "contains an observer call that is followed by a later call.")
     R.assumptions = [
         "CPU, one thread, float32; Gumbel sampling included: the full run and the erased run each own a random stream that is "
@@ -171,6 +180,11 @@ def run(tier: str, seed: int, replay=None) -> int:
         "everything that executes model code for the fingerprint (probing forward passes, cost, summary) runs on a deep copy "
         "in which non-leaf tensors held as buffers/attributes are replaced by their detached selves (that is how a grad-enabled "
         "forward leaves every MPS model; not an effect of observers)",
+        "gradient link: (a) per quantiser / combiner, requires_grad of the stored theta_alpha and the gradient of a fixed linear "
+        "functional of it w.r.t. alpha (pure torch on the stored tensors, retain_graph) are part of the fingerprint; (b) every cost "
+        "read of the full run records requires_grad and the gradient w.r.t. every parameter (torch.autograd.grad, retain_graph, no "
+        ".grad written) and is compared with the same read on a third object that made the non-observer calls and the cost reads "
+        "only; the erased run and the gradient twin use the built-in specification objects",
         "'usable' = after an observer call (a) a strict copy.deepcopy (only detaching non-leaf tensors) still succeeds if it did "
         "before and (b) vars() of every module has the same PUBLIC key set (names not starting with '_'; private caches / memos "
         "are not compared) as before the call",
@@ -262,6 +276,9 @@ def run(tier: str, seed: int, replay=None) -> int:
     # ... and an export() that restores ONE flag for the whole inner model thaws individually frozen BatchNorm layers
     R.design("ObserversMC", "ObserversMC_pit_rootmode", expect_ok=False, workers=2)
     R.design("ObserversMC", "ObserversMC_pit_rootmode_seq", expect_ok=False, workers=2)
+    # ... and an export() that puts the stored coefficients back by VALUE cuts the autograd link to the parameters
+    R.design("ObserversMC", "ObserversMC_mps_valuesonly", expect_ok=False, workers=2)
+    R.design("ObserversMC", "ObserversMC_sn_valuesonly_seq", expect_ok=False, workers=2)
 
     # 3. code -> spec: random sequences on all variants
     n_rand = 10 if quick else 150
@@ -291,6 +308,10 @@ def run(tier: str, seed: int, replay=None) -> int:
         "graphs": graph_info, "edges_replayed_on_real_models": edges_total, "graph_walks": n_graph,
         "random_sequences": len(scen) - n_graph, "calls_executed": calls_n, "observer_calls_executed": obs_calls,
         "erased_runs_compared_at_calls": sum(1 for t in traces for e in t["ev"] if e["ref"]["has"]),
+        "cost_reads_compared_with_gradient_twin": sum(1 for t in traces for e in t["ev"] if e["tw"]["has"]),
+        "cost_reads_that_require_grad": sum(1 for t in traces for e in t["ev"] if e["tw"]["has"] and e["ret"]["rg"]),
+        "setter_calls_fresh_object": sum(1 for t in traces for e in t["ev"] if e["act"]["a"] == "setcs" and e["act"]["how"] == "f"),
+        "setter_calls_own_object_in_place": sum(1 for t in traces for e in t["ev"] if e["act"]["a"] == "setcs" and e["act"]["how"] == "i"),
         "observer_calls_that_advanced_rng": sum(1 for t in traces for e in t["ev"] if e["rngadv"] and e["act"]["a"] in OBS),
         "observer_calls_after_which_model_not_deepcopyable": sum(
             1 for t in traces for p, e in zip([t["init"]] + [x["obs"] for x in t["ev"]], t["ev"])
